@@ -345,12 +345,12 @@ func ruleG6(p *Prog, r *Report) {
 		}
 		// the result channel: SendOnly parameter of the worker
 		var results ssa.Value
-		sig := callee.Signature
+		_ = callee.Signature
 		for i, a := range g.Call.Args {
-			if i >= sig.Params().Len() {
+			if i >= len(callee.Params) {
 				continue
 			}
-			if ch, ok := sig.Params().At(i).Type().Underlying().(*types.Chan); ok && ch.Dir() == types.SendOnly {
+			if ch, ok := callee.Params[i].Type().Underlying().(*types.Chan); ok && ch.Dir() == types.SendOnly {
 				results = a
 			}
 		}
@@ -489,24 +489,80 @@ func ruleG8(p *Prog, r *Report) {
 			n++
 			cons := "worker-count-selects-nothing:" + p.Name(launcher) + ":" + prm.Name()
 			mentions := func(v ssa.Value) bool { return v == ssa.Value(prm) }
+			// a test of the worker count one side of which only turns the count away (fresh error, return) is a
+			// validation, not a choice between behaviours
+			isRejection := func(b *ssa.BasicBlock) bool {
+				ret, ok := b.Instrs[len(b.Instrs)-1].(*ssa.Return)
+				if !ok {
+					return false
+				}
+				if cl, _ := classifyReturn(ret); cl != retError {
+					return false
+				}
+				for _, y := range b.Instrs {
+					if c, ok := y.(*ssa.Call); ok {
+						if cal := c.Call.StaticCallee(); cal == nil || (cal.Pkg == p.RootSSA && !isErrorCtorFunc(cal)) {
+							return false
+						}
+					}
+				}
+				return true
+			}
+			cd := controlDeps(launcher)
+			var dependsOnChoice func(b *ssa.BasicBlock) bool
+			seenB := map[*ssa.BasicBlock]bool{}
+			dependsOnChoice = func(b *ssa.BasicBlock) bool {
+				if seenB[b] {
+					return false
+				}
+				seenB[b] = true
+				for a := range cd[b] {
+					ifi, ok := a.Instrs[len(a.Instrs)-1].(*ssa.If)
+					if ok && sliceContains(ifi.Cond, mentions, 0, map[ssa.Value]bool{}) && !isRejection(a.Succs[0]) && !isRejection(a.Succs[1]) {
+						return true
+					}
+					if dependsOnChoice(a) {
+						return true
+					}
+				}
+				return false
+			}
 			var bad ssa.Instruction
 			eachInstr(launcher, func(in ssa.Instruction) {
 				if bad != nil {
 					return
 				}
+				for k := range seenB {
+					delete(seenB, k)
+				}
+				if isRejection(in.Block()) {
+					return
+				}
 				switch x := in.(type) {
 				case *ssa.Return:
+					// turning an unusable worker count away with a fresh error is not a choice between behaviours
+					if cl, _ := classifyReturn(x); cl == retError {
+						fresh := false
+						for _, y := range x.Block().Instrs {
+							if c, ok := y.(*ssa.Call); ok && c.Call.StaticCallee() != nil && isErrorCtorFunc(c.Call.StaticCallee()) {
+								fresh = true
+							}
+						}
+						if fresh {
+							return
+						}
+					}
 				case *ssa.Call:
 					if _, isB := x.Call.Value.(*ssa.Builtin); isB {
 						return
 					}
-					if cal := x.Call.StaticCallee(); cal != nil && (cal.Pkg != p.RootSSA) {
+					if cal := x.Call.StaticCallee(); cal != nil && (cal.Pkg != p.RootSSA || isErrorCtorFunc(cal)) {
 						return
 					}
 				default:
 					return
 				}
-				if controlDependsOnValue(launcher, in.Block(), mentions) {
+				if dependsOnChoice(in.Block()) {
 					bad = in
 				}
 			})
